@@ -222,6 +222,7 @@ struct LoopRun {
     int rc = 0;
     bool poll_failure = false;
     uint64_t batches = 0;
+    uint64_t evt_cbs = 0;   // event handlers entered during this run (none during the start-up pass)
 };
 
 struct RetainedEvt { const m_evt_t *raw; EvtObs first; int slot; bool released = false; };
